@@ -97,6 +97,7 @@ enum R {
     ZHVecF64, // (&[u8]) -> heapless::Vec<f64, 4> (LE octets, bits)
     ZHVecStr, // (&str, &str) -> heapless::Vec<heapless::String<32>, 4>
     ZUnitQ,   // query returning ()
+    Big,      // (u8) -> u32, keeps a 6000 byte array alive across its suspension point
 }
 
 #[derive(Clone, Debug)]
@@ -275,6 +276,7 @@ fn tree_hand() -> Vec<Decl> {
         // twelve characters SCPI recommends (the macro accepts them)
         d("TEN", &[U8, U8, U8, U8, U8, U8, U8, U8, U8, U8], R::Unit, true),
         d("SYSTem:TEN?", &[I16, I16, I16, I16, I16, I16, I16, I16, I16, Bool], R::Hid, true),
+        d("SYSTem:BIG?", &[U8], R::Big, true),
         d("EXTRAordinarilyLONG:FOO", &[], R::Unit, true),
         d("EXTRAordinarilyLONG:BAZ?", &[], R::Hid, true),
         d("SYSTem:LONGmnemonic17:BAR", &[], R::Unit, false),
@@ -469,7 +471,7 @@ fn queue_hand() -> Vec<Decl> {
 fn ret_type(r: R) -> &'static str {
     match r {
         R::Unit | R::Fail | R::ZUnitQ => "()",
-        R::Hid | R::EchoU32 | R::FailQ | R::ZU32 => "u32",
+        R::Hid | R::EchoU32 | R::FailQ | R::ZU32 | R::Big => "u32",
         R::EchoStr | R::Idn | R::ZStr | R::ZStrB => "&str",
         R::ZU8 => "u8",
         R::ZI8 => "i8",
@@ -505,6 +507,7 @@ fn ret_type(r: R) -> &'static str {
 fn ret_body(r: R, hid: usize) -> String {
     match r {
         R::Unit | R::ZUnitQ => "Ok(())".into(),
+        R::Big => "Ok(big.iter().map(|x| *x as u32).sum::<u32>())".into(),
         R::Hid => format!("Ok({hid}u32)"),
         R::EchoStr | R::ZStr => "{ self.sbuf.clear(); self.sbuf.push_str(a0); Ok(self.sbuf.as_str()) }".into(),
         R::EchoU32 | R::ZU32 | R::ZU8 | R::ZI8 | R::ZU16 | R::ZI16 | R::ZI32 | R::ZU64 | R::ZI64
@@ -572,6 +575,11 @@ fn emit_iface(out: &mut String, spec: &mut String, idx: usize, it: &Iface, ns: &
         writeln!(out, "        #[scpi(cmd = \"{}\")]", dc.cmd()).unwrap();
         writeln!(out, "        pub {a}fn h{hid}(&mut self{sig}) -> Result<{}, Error> {{", ret_type(dc.ret)).unwrap();
         writeln!(out, "            {{ let _g = Harness::enter(); self.w.enter({hid}, vec![{log}]); }}").unwrap();
+        if dc.ret == R::Big {
+            // a large local that lives across the suspension point makes the future of this
+            // handler (and with it the generated execute_command future) larger than 4 KiB
+            writeln!(out, "            let big = [a0; 6000];").unwrap();
+        }
         if dc.is_async {
             writeln!(out, "            self.w.suspend_point().await;").unwrap();
         }
